@@ -41,6 +41,7 @@ def find_core_tokens(string, root):
                 delimiters.append(Delimiter(start, i if not escaped else i - 1, string))
                 in_delimiter_run = None
                 escaped = False
+            in_image = False
             _code_matches.append(code_match)
             i = code_match.end()
             code_match = code_pattern.search(string, i)
@@ -48,6 +49,7 @@ def find_core_tokens(string, root):
         c = string[i]
         if c == '\\' and not escaped:
             escaped = True
+            in_image = False
             i += 1
             continue
         if in_delimiter_run is not None and (c != in_delimiter_run or escaped):
@@ -66,6 +68,7 @@ def find_core_tokens(string, root):
             elif c == '!':
                 in_image = True
             elif c == ']':
+                in_image = False
                 i = find_link_image(string, i, delimiters, matches, root)
                 code_match = code_pattern.search(string, i)
             elif in_image:
